@@ -6,6 +6,7 @@ import (
 	"fmt"
 	"io/fs"
 	"os"
+	"path"
 	"path/filepath"
 	"sort"
 	"strings"
@@ -483,7 +484,9 @@ func expandGlob(root, pattern string) ([]string, error) {
 		return nil
 	}
 
-	err := doublestar.GlobWalk(os.DirFS(root), pattern, ignoreHiddenGlobFn)
+	// The walk is over an fs.FS, which only accepts clean, slash separated relative paths: a
+	// pattern written as "./src/*.go" would otherwise silently match nothing at all
+	err := doublestar.GlobWalk(os.DirFS(root), path.Clean(filepath.ToSlash(pattern)), ignoreHiddenGlobFn)
 	if err != nil {
 		return nil, fmt.Errorf("could not expand glob pattern %q: %w", pattern, err)
 	}
